@@ -1,9 +1,457 @@
-import WaVerif.Model.C31
+import WaVerif.Lemmas.C31
+/-!
+# C31 — theorems about the REFERENCE semantics (not about wazero)
+
+The property itself ("the embedded engine behaves like an independent engine") is decided by three-way translation
+validation in `checks/c31.py`.  The theorems below make the reference side trustworthy: they show that the executable
+specification `Base/WasmNum.lean` + `Model/C31.lean` has the properties the WebAssembly specification states for the
+integer and linear-memory instructions.  Every `theorem` here is an obligation of the check and is axiom-audited.
+-/
 namespace WaVerif.C31
 open WaVerif.Wasm
 
+/-! ## numeric instructions (spec §4.3.2) -/
+
+/-- `rotr (rotl x k) k = x`, both widths, any count -/
+theorem rotr_rotl32 (x k : BitVec 32) : (binop .rotl x k).bind (fun r => binop .rotr r k) = some x := by
+  simp [binop, rotateRight_rotateLeft]
+
+theorem rotr_rotl64 (x k : BitVec 64) : (binop .rotl x k).bind (fun r => binop .rotr r k) = some x := by
+  simp [binop, rotateRight_rotateLeft]
+
+/-- `div_s` traps exactly on a zero divisor and on (min, -1) -/
+theorem div_s_trap_iff {w : Nat} (x y : BitVec w) :
+    binop .div_s x y = none ↔ (y = 0 ∨ (x = BitVec.intMin w ∧ y = -1)) := by
+  unfold binop
+  by_cases h1 : y = 0
+  · simp [h1]
+  · by_cases h2 : x = BitVec.intMin w ∧ y = -1
+    · simp_all
+    · simp_all
+
+/-- when it does not trap, `div_s` is the quotient truncated toward zero -/
+theorem div_s_trunc {w : Nat} (x y r : BitVec w) (h : binop .div_s x y = some r) : r.toInt = x.toInt.tdiv y.toInt := by
+  unfold binop at h
+  by_cases h1 : y = 0
+  · simp [h1] at h
+  · by_cases h2 : x = BitVec.intMin w ∧ y = -1
+    · simp [h2] at h
+    · simp only [h1, h2, if_false, Option.some.injEq] at h
+      subst h
+      apply BitVec.toInt_sdiv_of_ne_or_ne
+      by_cases h3 : x = BitVec.intMin w
+      · right; intro h4; exact h2 ⟨h3, by simpa using h4⟩
+      · left; exact h3
+
+example : binop .div_s (-7 : BitVec 32) 2 = some (-3) := by decide
+
+theorem rem_s_trap_iff {w : Nat} (x y : BitVec w) : binop .rem_s x y = none ↔ y = 0 := by
+  unfold binop
+  by_cases h1 : y = 0 <;> simp [h1]
+
+/-- `rem_s` is the truncated remainder: it has the sign of the dividend (or is zero) -/
+theorem rem_s_sign {w : Nat} (x y r : BitVec w) (h : binop .rem_s x y = some r) :
+    r.toInt = x.toInt.tmod y.toInt ∧ (0 ≤ x.toInt → 0 ≤ r.toInt) ∧ (x.toInt ≤ 0 → r.toInt ≤ 0) := by
+  unfold binop at h
+  by_cases h1 : y = 0
+  · simp [h1] at h
+  · simp only [h1, if_false, Option.some.injEq] at h
+    subst h
+    rw [BitVec.toInt_srem]
+    refine ⟨rfl, fun hx => Int.tmod_nonneg _ hx, fun hx => ?_⟩
+    have := Int.tmod_nonneg (y.toInt) (a := -x.toInt) (by omega)
+    rw [Int.neg_tmod] at this
+    omega
+
+example : binop .rem_s (-7 : BitVec 32) 2 = some (-1) := by decide
+
+/-- `rem_s` never overflows: (min, -1) is 0, not a trap -/
+theorem rem_s_min_neg_one : binop .rem_s (BitVec.intMin 32) (-1#32) = some 0#32 ∧
+    binop .rem_s (BitVec.intMin 64) (-1#64) = some 0#64 := by decide
+
+/-- shifts and rotations use the count modulo the width -/
+theorem shl_count_mod32 (k : BinK) (hk : isShift k = true) (x y : BitVec 32) : binop k x y = binop k x (y &&& 31#32) := by
+  have h : y.toNat &&& 31 = y.toNat % 32 := Nat.and_two_pow_sub_one_eq_mod y.toNat 5
+  cases k <;> simp [isShift] at hk <;> simp [binop, BitVec.toNat_and, h]
+
+theorem shl_count_mod64 (k : BinK) (hk : isShift k = true) (x y : BitVec 64) : binop k x y = binop k x (y &&& 63#64) := by
+  have h : y.toNat &&& 63 = y.toNat % 64 := Nat.and_two_pow_sub_one_eq_mod y.toNat 6
+  cases k <;> simp [isShift] at hk <;> simp [binop, BitVec.toNat_and, h]
+
+example : isShift .shr_s = true := rfl
+example : binop .shl (5 : BitVec 32) 33 = some 10 := by decide
+
+theorem clz_eq_width_iff32 (x : BitVec 32) : unop .clz x = 32#32 ↔ x = 0 := by
+  have h1 := @BitVec.clz_lt_iff_ne_zero 32 x
+  simp only [unop]
+  constructor
+  · intro h
+    by_cases hx : x = 0
+    · exact hx
+    · have := h1.mpr hx
+      rw [h] at this
+      simp at this
+  · intro h; subst h; decide
+
+theorem clz_eq_width_iff64 (x : BitVec 64) : unop .clz x = 64#64 ↔ x = 0 := by
+  have h1 := @BitVec.clz_lt_iff_ne_zero 64 x
+  simp only [unop]
+  constructor
+  · intro h
+    by_cases hx : x = 0
+    · exact hx
+    · have := h1.mpr hx
+      rw [h] at this
+      simp at this
+  · intro h; subst h; decide
+
+/-- count-trailing-zeros returns the width exactly for zero (both widths) -/
+theorem ctz_eq_width_iff {w : Nat} (hw : w = 32 ∨ w = 64) (x : BitVec w) : unop .ctz x = BitVec.ofNat w w ↔ x = 0 := by
+  simp only [unop, Wasm.ctz]
+  have hle := ctzGo_le x w 0
+  have hlt : w < 2 ^ w := by rcases hw with h | h <;> subst h <;> decide
+  constructor
+  · intro h
+    have h2 : ctzGo x w 0 = 0 + w := by
+      have := congrArg BitVec.toNat h
+      simp only [BitVec.toNat_ofNat] at this
+      rw [Nat.mod_eq_of_lt (by omega), Nat.mod_eq_of_lt hlt] at this
+      omega
+    have h3 := (ctzGo_eq_iff x w 0).mp h2
+    apply BitVec.eq_of_getLsbD_eq
+    intro i hi
+    simp [h3 i (by omega) (by omega)]
+  · intro h
+    subst h
+    have : ctzGo (0 : BitVec w) w 0 = 0 + w := (ctzGo_eq_iff _ w 0).mpr (by intro i _ _; simp)
+    rw [this]; simp
+
+example : unop .ctz (8 : BitVec 32) = 3 := by decide
+
+/-! ## conversions -/
+
+theorem wrap_extend_s (loc : List Val) (x : BitVec 32) (st : List Val) (m : Mem) :
+    exec loc [.num .extend_i32_s, .num .wrap_i64] (.i32 x :: st, m) = .ok (.i32 x :: st, m) := by
+  simp [exec, step, stepNum, popI32, popI64, Res.bind, setWidth_signExtend32]
+
+theorem wrap_extend_u (loc : List Val) (x : BitVec 32) (st : List Val) (m : Mem) :
+    exec loc [.num .extend_i32_u, .num .wrap_i64] (.i32 x :: st, m) = .ok (.i32 x :: st, m) := by
+  simp [exec, step, stepNum, popI32, popI64, Res.bind, setWidth_setWidth32]
+
+/-- extending a wrapped value keeps exactly the low 32 bits -/
+theorem extend_u_wrap (loc : List Val) (y : BitVec 64) (st : List Val) (m : Mem) :
+    exec loc [.num .wrap_i64, .num .extend_i32_u] (.i64 y :: st, m) = .ok (.i64 (y &&& 0xffffffff#64) :: st, m) := by
+  simp [exec, step, stepNum, popI32, popI64, Res.bind, setWidth64_setWidth32]
+
+
+/-! ## the machine: agreement with the shared base specification, determinism, compositionality, totality on typed code -/
+
+/-- the trap-cause-annotated numeric step agrees with the shared base specification (`Wasm.step`, used by C01):
+same result stack when it succeeds, `none` exactly when it traps or is stuck -/
+theorem stepNum_eq_base (loc : List Val) (i : Wasm.Instr) (st : List Val) :
+    (stepNum loc i st).toOption = Wasm.step loc i st := by
+  cases i with
+  | const32 v => rfl
+  | const64 v => rfl
+  | localGet k =>
+    simp only [stepNum, Wasm.step]
+    cases loc[k]? <;> rfl
+  | bin t k =>
+    cases t <;> rcases st with _ | ⟨(y | y), _ | ⟨(x | x), st⟩⟩ <;>
+      simp [stepNum, Wasm.step, pop32, pop64, popI32, popI64, Res.toOption, Res.bind] <;>
+      cases binop k x y <;> simp [ofOpt, Res.bind, Res.toOption]
+  | rel t k =>
+    cases t <;> rcases st with _ | ⟨(y | y), _ | ⟨(x | x), st⟩⟩ <;>
+      simp [stepNum, Wasm.step, pop32, pop64, popI32, popI64, Res.toOption, Res.bind]
+  | eqz t =>
+    cases t <;> rcases st with _ | ⟨(x | x), st⟩ <;> simp [stepNum, Wasm.step, pop32, pop64, popI32, popI64, Res.toOption, Res.bind]
+  | un t k =>
+    cases t <;> rcases st with _ | ⟨(x | x), st⟩ <;> simp [stepNum, Wasm.step, pop32, pop64, popI32, popI64, Res.toOption, Res.bind]
+  | wrap_i64 => rcases st with _ | ⟨(x | x), st⟩ <;> simp [stepNum, Wasm.step, pop32, pop64, popI32, popI64, Res.toOption, Res.bind]
+  | extend_i32_s => rcases st with _ | ⟨(x | x), st⟩ <;> simp [stepNum, Wasm.step, pop32, pop64, popI32, popI64, Res.toOption, Res.bind]
+  | extend_i32_u => rcases st with _ | ⟨(x | x), st⟩ <;> simp [stepNum, Wasm.step, pop32, pop64, popI32, popI64, Res.toOption, Res.bind]
+  | drop => rcases st with _ | ⟨x, st⟩ <;> simp [stepNum, Wasm.step, popAny, Res.toOption, Res.bind]
+
+/-- the reference is a function of (locals, code, state): one outcome -/
 theorem exec_deterministic (loc : List Val) (c : List Instr) (s : State) (r1 r2 : Res State)
     (h1 : exec loc c s = r1) (h2 : exec loc c s = r2) : r1 = r2 := by
   rw [← h1, ← h2]
+
+theorem exec_append (loc : List Val) (c1 c2 : List Instr) (s : State) :
+    exec loc (c1 ++ c2) s = (exec loc c1 s).bind (exec loc c2) := by
+  induction c1 generalizing s with
+  | nil => rfl
+  | cons i r ih =>
+    simp only [List.cons_append, exec]
+    cases step loc i s with
+    | ok s' => simp only [Res.bind]; exact ih s'
+    | trap k => rfl
+    | stuck => rfl
+
+theorem stepNum_progress (loc : List Val) (i : Wasm.Instr) (st : List Val) (ts' : List Ty)
+    (h : tyNum (loc.map valTy) i (st.map valTy) = some ts') :
+    (∃ st', stepNum loc i st = .ok st' ∧ st'.map valTy = ts') ∨ (∃ k, stepNum loc i st = .trap k) := by
+  cases i with
+  | const32 v => left; simp [tyNum] at h; exact ⟨_, rfl, by simp [valTy, h]⟩
+  | const64 v => left; simp [tyNum] at h; exact ⟨_, rfl, by simp [valTy, h]⟩
+  | localGet k =>
+    left
+    simp only [tyNum, List.getElem?_map] at h
+    simp only [stepNum]
+    cases hk : loc[k]? with
+    | none => simp [hk] at h
+    | some v => simp [hk] at h; exact ⟨_, rfl, by simp [h]⟩
+  | bin t k =>
+    cases t <;> rcases st with _ | ⟨(y | y), _ | ⟨(x | x), st⟩⟩ <;> simp [tyNum, tpop, valTy] at h <;>
+      simp only [stepNum, popI32, popI64, Res.bind] <;>
+      (cases binop k x y with
+        | none => right; exact ⟨_, rfl⟩
+        | some r => left; exact ⟨_, rfl, by simp [valTy, h]⟩)
+  | rel t k =>
+    cases t <;> rcases st with _ | ⟨(y | y), _ | ⟨(x | x), st⟩⟩ <;> simp [tyNum, tpop, valTy] at h <;>
+      (left; exact ⟨_, rfl, by simp [valTy, h]⟩)
+  | eqz t =>
+    cases t <;> rcases st with _ | ⟨(x | x), st⟩ <;> simp [tyNum, tpop, valTy] at h <;>
+      (left; exact ⟨_, rfl, by simp [valTy, h]⟩)
+  | un t k =>
+    cases t <;> rcases st with _ | ⟨(x | x), st⟩ <;> simp [tyNum, tpop, valTy] at h <;>
+      (left; exact ⟨_, rfl, by simp [valTy, h]⟩)
+  | wrap_i64 =>
+    rcases st with _ | ⟨(x | x), st⟩ <;> simp [tyNum, tpop, valTy] at h <;> (left; exact ⟨_, rfl, by simp [valTy, h]⟩)
+  | extend_i32_s =>
+    rcases st with _ | ⟨(x | x), st⟩ <;> simp [tyNum, tpop, valTy] at h <;> (left; exact ⟨_, rfl, by simp [valTy, h]⟩)
+  | extend_i32_u =>
+    rcases st with _ | ⟨(x | x), st⟩ <;> simp [tyNum, tpop, valTy] at h <;> (left; exact ⟨_, rfl, by simp [valTy, h]⟩)
+  | drop =>
+    rcases st with _ | ⟨x, st⟩ <;> simp [tyNum] at h
+    left; exact ⟨_, rfl, h⟩
+
+
+
+theorem valTy_mkVal (t : Ty) (sx : Bool) (n raw : Nat) : valTy (mkVal t sx n raw) = t := by
+  cases t <;> rfl
+
+/-- progress + preservation for one instruction: on an operand stack of the types validation requires,
+the reference never gets stuck — it steps to a stack of the validated result types, or traps -/
+theorem step_progress (loc : List Val) (i : Instr) (st : List Val) (m : Mem) (ts' : List Ty)
+    (h : tyStep (loc.map valTy) i (st.map valTy) = some ts') :
+    (∃ st' m', step loc i (st, m) = .ok (st', m') ∧ st'.map valTy = ts' ∧ m'.maxPages = m.maxPages) ∨
+      (∃ k, step loc i (st, m) = .trap k) := by
+  cases i with
+  | num i =>
+    simp only [tyStep] at h
+    rcases stepNum_progress loc i st ts' h with ⟨st', h1, h2⟩ | ⟨k, h1⟩
+    · left; exact ⟨st', m, by simp [step, h1, Res.bind], h2, rfl⟩
+    · right; exact ⟨k, by simp [step, h1, Res.bind]⟩
+  | select =>
+    rcases st with _ | ⟨(c | c), _ | ⟨(v2 | v2), _ | ⟨(v1 | v1), st⟩⟩⟩ <;> simp [tyStep, tpop, valTy] at h <;>
+      (left; by_cases hc : c = 0#32 <;> simp only [step, popI32, popAny, Res.bind, valTy, if_true] <;>
+        exact ⟨_, _, rfl, by simp [valTy, hc, h], rfl⟩)
+  | load t n sx off =>
+    rcases st with _ | ⟨(a | a), st⟩ <;> simp [tyStep, tpop, valTy] at h
+    obtain ⟨hw, h⟩ := h
+    by_cases hb : a.toNat + off + n > m.size
+    · right; exact ⟨.oob, by simp [step, popI32, Res.bind, hw, hb]⟩
+    · left; simp only [step, popI32, Res.bind, hw, hb, Bool.not_true, Bool.false_eq_true, if_false]
+      exact ⟨_, _, rfl, by simp [valTy_mkVal, h], rfl⟩
+  | store t n off =>
+    cases t <;> rcases st with _ | ⟨(v | v), _ | ⟨(a | a), st⟩⟩ <;> simp [tyStep, tpop, valTy] at h <;>
+      (obtain ⟨hw, h⟩ := h
+       by_cases hb : a.toNat + off + n > m.size
+       · right; exact ⟨.oob, by simp [step, popI32, popAny, Res.bind, hw, valTy, hb]⟩
+       · left; simp only [step, popI32, popAny, Res.bind, hw, valTy, hb, Bool.not_true, bne_self_eq_false, Bool.or_self,
+           Bool.false_eq_true, if_false]
+         exact ⟨_, _, rfl, h, rfl⟩)
+  | memSize =>
+    simp [tyStep] at h
+    left; exact ⟨_, m, rfl, by simp [valTy, h], rfl⟩
+  | memGrow =>
+    rcases st with _ | ⟨(d | d), st⟩ <;> simp [tyStep, tpop, valTy] at h
+    left
+    by_cases hg : m.pages + d.toNat ≤ m.maxPages <;> simp only [step, popI32, Res.bind, hg, if_true, if_false] <;>
+      exact ⟨_, _, rfl, by simp [valTy, h], rfl⟩
+  | memFill =>
+    rcases st with _ | ⟨(n | n), _ | ⟨(v | v), _ | ⟨(d | d), st⟩⟩⟩ <;> simp [tyStep, tpop, valTy] at h
+    by_cases hb : d.toNat + n.toNat > m.size
+    · right; exact ⟨.oob, by simp [step, popI32, Res.bind, hb]⟩
+    · left; simp only [step, popI32, Res.bind, hb, if_false]
+      exact ⟨_, _, rfl, h, rfl⟩
+  | memCopy =>
+    rcases st with _ | ⟨(n | n), _ | ⟨(s | s), _ | ⟨(d | d), st⟩⟩⟩ <;> simp [tyStep, tpop, valTy] at h
+    by_cases hb : s.toNat + n.toNat > m.size ∨ d.toNat + n.toNat > m.size
+    · right; exact ⟨.oob, by simp [step, popI32, Res.bind, hb]⟩
+    · left
+      have hb' : (decide (s.toNat + n.toNat > m.size) || decide (d.toNat + n.toNat > m.size)) = false := by simpa using hb
+      simp only [step, popI32, Res.bind, hb', Bool.false_eq_true, if_false]
+      exact ⟨_, _, rfl, h, rfl⟩
+
+/-- validated straight-line code is total: it ends in a state whose stack has the validated types, or in a trap; never stuck -/
+theorem exec_total (loc : List Val) (c : List Instr) (st : List Val) (m : Mem) (ts' : List Ty)
+    (h : tyExec (loc.map valTy) c (st.map valTy) = some ts') :
+    (∃ st' m', exec loc c (st, m) = .ok (st', m') ∧ st'.map valTy = ts') ∨ (∃ k, exec loc c (st, m) = .trap k) := by
+  induction c generalizing st m with
+  | nil =>
+    left; simp only [tyExec, Option.some.injEq] at h
+    exact ⟨st, m, rfl, h⟩
+  | cons i r ih =>
+    simp only [tyExec] at h
+    cases hs : tyStep (loc.map valTy) i (st.map valTy) with
+    | none => simp [hs] at h
+    | some ts1 =>
+      simp only [hs, Option.bind_some] at h
+      rcases step_progress loc i st m ts1 hs with ⟨st1, m1, h1, h2, _⟩ | ⟨k, h1⟩
+      · simp only [exec, h1, Res.bind]
+        exact ih st1 m1 (by rw [h2]; exact h)
+      · right; exact ⟨k, by simp [exec, h1, Res.bind]⟩
+
+example : tyExec [.i32, .i32] [.num (.localGet 0), .num (.localGet 1), .num (.bin .i32 .div_s)] [] = some [.i32] := by decide
+
+/-! ## linear memory (spec §4.4.7) -/
+
+/-- a load traps exactly when `addr + offset + width > size` (no wrap-around of the effective address), and only with `oob` -/
+theorem load_trap_iff (loc : List Val) (t : Ty) (n off : Nat) (sx : Bool) (a : BitVec 32) (st : List Val) (m : Mem) (k : TrapK)
+    (hw : widthOk t n = true) :
+    step loc (.load t n sx off) (.i32 a :: st, m) = .trap k ↔ (k = .oob ∧ a.toNat + off + n > m.size) := by
+  simp only [step, popI32, Res.bind, hw, Bool.not_true, Bool.false_eq_true, if_false]
+  by_cases h : a.toNat + off + n > m.size
+  · simp [h]; exact eq_comm
+  · simp [h]
+
+theorem store_trap_iff (loc : List Val) (t : Ty) (n off : Nat) (a : BitVec 32) (v : Val) (st : List Val) (m : Mem) (k : TrapK)
+    (hw : widthOk t n = true) (hv : valTy v = t) :
+    step loc (.store t n off) (v :: .i32 a :: st, m) = .trap k ↔ (k = .oob ∧ a.toNat + off + n > m.size) := by
+  simp only [step, popI32, popAny, Res.bind, hw, hv, Bool.not_true, bne_self_eq_false, Bool.or_self, Bool.false_eq_true, if_false]
+  by_cases h : a.toNat + off + n > m.size
+  · simp [h]; exact eq_comm
+  · simp [h]
+
+example : widthOk .i64 4 = true ∧ valTy (.i64 5) = .i64 := by decide
+
+/-- store then load at the same address and width returns the stored value truncated to the width and
+zero- / sign-extended (see `load_after_store_i32/_i64` for the register contents); the memory size is unchanged -/
+theorem load_after_store (loc : List Val) (t : Ty) (n off : Nat) (sx : Bool) (a : BitVec 32) (v : Val) (st : List Val) (m : Mem)
+    (hw : widthOk t n = true) (hv : valTy v = t) (hb : a.toNat + off + n ≤ m.size) :
+    ∃ m', step loc (.store t n off) (v :: .i32 a :: st, m) = .ok (st, m') ∧ m'.size = m.size ∧ m'.maxPages = m.maxPages ∧
+      step loc (.load t n sx off) (.i32 a :: st, m') = .ok (mkVal t sx n (valNat v % 256 ^ n) :: st, m') := by
+  have hnb : ¬ (a.toNat + off + n > m.size) := by omega
+  refine ⟨{ m with bytes := writeLE m.bytes (a.toNat + off) n (valNat v) }, ?_, ?_, rfl, ?_⟩
+  · simp [step, popI32, popAny, Res.bind, hw, hv, hnb]
+  · simp [Mem.size, writeLE_size]
+  · simp only [step, popI32, Res.bind, hw, Bool.not_true, Bool.false_eq_true, if_false, Mem.size, writeLE_size]
+    simp only [Mem.size] at hnb hb
+    simp only [hnb, if_false]
+    rw [readLE_writeLE _ _ _ _ (by omega)]
+
+example : (0 : BitVec 32).toNat + 65528 + 8 ≤ 65536 := by decide
+
+theorem load_after_store_i32 (n : Nat) (sx : Bool) (x : BitVec 32) :
+    mkVal .i32 sx n (valNat (.i32 x) % 256 ^ n) =
+      .i32 (if sx then (x.setWidth (8 * n)).signExtend 32 else (x.setWidth (8 * n)).setWidth 32) := by
+  simp only [mkVal, valNat, extendNat_mod]
+
+theorem load_after_store_i64 (n : Nat) (sx : Bool) (x : BitVec 64) :
+    mkVal .i64 sx n (valNat (.i64 x) % 256 ^ n) =
+      .i64 (if sx then (x.setWidth (8 * n)).signExtend 64 else (x.setWidth (8 * n)).setWidth 64) := by
+  simp only [mkVal, valNat, extendNat_mod]
+
+/-- full-width store / load is the identity -/
+theorem load_after_store_full : (∀ (x : BitVec 32) (sx : Bool), mkVal .i32 sx 4 (valNat (.i32 x) % 256 ^ 4) = .i32 x) ∧
+    (∀ (x : BitVec 64) (sx : Bool), mkVal .i64 sx 8 (valNat (.i64 x) % 256 ^ 8) = .i64 x) := by
+  constructor
+  · intro x sx; rw [load_after_store_i32]; cases sx <;> simp
+  · intro x sx; rw [load_after_store_i64]; cases sx <;> simp
+
+/-- a store changes no byte outside `[ea, ea+n)` and never the size -/
+theorem store_frame (loc : List Val) (t : Ty) (n off : Nat) (a : BitVec 32) (v : Val) (st st' : List Val) (m m' : Mem) (i : Nat)
+    (h : step loc (.store t n off) (v :: .i32 a :: st, m) = .ok (st', m'))
+    (hi : i < a.toNat + off ∨ a.toNat + off + n ≤ i) : m'.bytes.getD i 0 = m.bytes.getD i 0 ∧ m'.size = m.size := by
+  simp only [step, popI32, popAny, Res.bind] at h
+  split at h
+  · cases h
+  · split at h
+    · cases h
+    · cases h
+      exact ⟨writeLE_frame _ _ _ _ _ hi, by simp [Mem.size, writeLE_size]⟩
+
+/-- little-endian: the byte at `ea + j` is byte `j` of the value -/
+theorem writeLE_byte (b : Array (BitVec 8)) (ea n v j : Nat) (h : ea + n ≤ b.size) (hj : j < n) :
+    ((writeLE b ea n v).getD (ea + j) 0).toNat = v / 256 ^ j % 256 := by
+  induction n generalizing b ea v j with
+  | zero => omega
+  | succ n ih =>
+    simp only [writeLE]
+    cases j with
+    | zero =>
+      rw [Nat.add_zero, writeLE_frame _ _ _ _ _ (by omega), getD_setIfInBounds]
+      have : ea < b.size := by omega
+      simp [this]
+    | succ j =>
+      have := ih (b.setIfInBounds ea (BitVec.ofNat 8 v)) (ea + 1) (v / 256) j (by simp; omega) (by omega)
+      rw [show ea + (j + 1) = ea + 1 + j by omega, this, Nat.pow_succ', Nat.div_div_eq_div_mul]
+
+theorem fill_trap_iff (loc : List Val) (d v n : BitVec 32) (st : List Val) (m : Mem) (k : TrapK) :
+    step loc .memFill (.i32 n :: .i32 v :: .i32 d :: st, m) = .trap k ↔ (k = .oob ∧ d.toNat + n.toNat > m.size) := by
+  simp only [step, popI32, Res.bind]
+  by_cases h : d.toNat + n.toNat > m.size
+  · simp [h]; exact eq_comm
+  · simp [h]
+
+/-- `memory.fill d v n` in bounds: bytes `[d, d+n)` become the LOW BYTE of `v`, everything else is unchanged -/
+theorem fill_spec (loc : List Val) (d v n : BitVec 32) (st : List Val) (m : Mem) (h : d.toNat + n.toNat ≤ m.size) :
+    ∃ m', step loc .memFill (.i32 n :: .i32 v :: .i32 d :: st, m) = .ok (st, m') ∧ m'.size = m.size ∧
+      ∀ i, m'.bytes.getD i 0 = if d.toNat ≤ i ∧ i < d.toNat + n.toNat then v.setWidth 8 else m.bytes.getD i 0 := by
+  have hn : ¬ (d.toNat + n.toNat > m.size) := by omega
+  refine ⟨{ m with bytes := fillBytes m.bytes d.toNat (v.setWidth 8) n.toNat }, by simp [step, popI32, Res.bind, hn],
+    by simp [Mem.size, fillBytes_size], fun i => ?_⟩
+  exact fillBytes_getD _ _ _ _ _ h
+
+theorem copy_trap_iff (loc : List Val) (d s n : BitVec 32) (st : List Val) (m : Mem) (k : TrapK) :
+    step loc .memCopy (.i32 n :: .i32 s :: .i32 d :: st, m) = .trap k ↔
+      (k = .oob ∧ (s.toNat + n.toNat > m.size ∨ d.toNat + n.toNat > m.size)) := by
+  simp only [step, popI32, Res.bind]
+  by_cases h : s.toNat + n.toNat > m.size ∨ d.toNat + n.toNat > m.size
+  · simp [h]; exact eq_comm
+  · simp [h]
+
+/-- `memory.copy d s n` in bounds: byte `d+j` becomes the OLD byte `s+j` for every `j < n`, also when the ranges overlap -/
+theorem copy_spec (loc : List Val) (d s n : BitVec 32) (st : List Val) (m : Mem)
+    (h1 : s.toNat + n.toNat ≤ m.size) (h2 : d.toNat + n.toNat ≤ m.size) :
+    ∃ m', step loc .memCopy (.i32 n :: .i32 s :: .i32 d :: st, m) = .ok (st, m') ∧ m'.size = m.size ∧
+      ∀ i, m'.bytes.getD i 0 = if d.toNat ≤ i ∧ i < d.toNat + n.toNat then m.bytes.getD (s.toNat + (i - d.toNat)) 0
+                               else m.bytes.getD i 0 := by
+  have hn : ¬ (s.toNat + n.toNat > m.size ∨ d.toNat + n.toNat > m.size) := by omega
+  refine ⟨{ m with bytes := copyBytes m.bytes d.toNat s.toNat n.toNat }, by simp [step, popI32, Res.bind, hn],
+    by simp [Mem.size, copyBytes, writeList_size], fun i => ?_⟩
+  exact copyBytes_getD _ _ _ _ _ h2
+
+/-- `memory.grow` within the limit: returns the old page count, appends zero pages, keeps the old contents -/
+theorem grow_ok (loc : List Val) (d : BitVec 32) (st : List Val) (m : Mem) (h : m.pages + d.toNat ≤ m.maxPages)
+    (hp : m.size = m.pages * pageSize) :
+    ∃ m', step loc .memGrow (.i32 d :: st, m) = .ok (.i32 (BitVec.ofNat 32 m.pages) :: st, m') ∧
+      m'.pages = m.pages + d.toNat ∧ m'.maxPages = m.maxPages ∧
+      (∀ i, i < m.size → m'.bytes.getD i 0 = m.bytes.getD i 0) ∧ (∀ i, m.size ≤ i → m'.bytes.getD i 0 = 0) := by
+  refine ⟨{ m with bytes := m.bytes ++ Array.replicate (d.toNat * pageSize) 0 }, ?_, ?_, rfl, ?_, ?_⟩
+  · simp [step, popI32, Res.bind, h]
+  · simp only [Mem.pages, Mem.size, Array.size_append, Array.size_replicate] at *
+    rw [hp]
+    have : 0 < pageSize := by decide
+    rw [← Nat.add_mul, Nat.mul_div_cancel _ this, Nat.mul_div_cancel _ this]
+  · intro i hi
+    simp only [Mem.size] at hi
+    simp [Array.getD_eq_getD_getElem?, Array.getElem?_append, hi]
+  · intro i hi
+    simp only [Mem.size] at hi
+    have : ¬ i < m.bytes.size := by omega
+    simp only [Array.getD_eq_getD_getElem?, Array.getElem?_append, this, if_false]
+    by_cases h2 : i - m.bytes.size < d.toNat * pageSize <;> simp [h2]
+
+/-- `memory.grow` beyond the limit: returns -1 and changes nothing (in particular the memory never shrinks) -/
+theorem grow_fail (loc : List Val) (d : BitVec 32) (st : List Val) (m : Mem) (h : m.pages + d.toNat > m.maxPages) :
+    step loc .memGrow (.i32 d :: st, m) = .ok (.i32 0xffffffff#32 :: st, m) := by
+  have : ¬ (m.pages + d.toNat ≤ m.maxPages) := by omega
+  simp [step, popI32, Res.bind, this]
+
+example : (⟨#[], 4⟩ : Mem).pages + (0xffffffff#32).toNat > 4 := by decide
+example : (⟨#[], 4⟩ : Mem).pages + (3#32).toNat ≤ 4 ∧ (⟨#[], 4⟩ : Mem).size = (⟨#[], 4⟩ : Mem).pages * pageSize := by decide
 
 end WaVerif.C31
